@@ -1070,3 +1070,68 @@ Definition wf_cli (w : what) (detected fmt out : option str) : bool :=
   end && match out with Some [] => false | _ => true end.
 Definition run_C03_cli (w : N) (detected : option str) (nobj : nat) (fmt out fmtout : option str) : val :=
   VL [VB (wf_cli (v_what w) detected fmt out); v_cli (cli_convert (v_what w) detected nobj fmt out fmtout)].
+
+(* ------------------------------------------------------------------ sessions: a history of calls on ONE file object, as a state
+   machine over (kind, content, offset).  The io calls are CPython's (tied by the sess stream); detect is main.py:76-101; reading
+   an object is main.py:336-358 / 384-397: format given or detected on the handle, then the plugin consumes from where the handle
+   stands -- the Stockholm reader up to and including the first "//" line (stockholm.py:120-141: readline() until a line that,
+   stripped, starts with "//"), every other reader to the end of the content; _file_opener (main.py:53-63) leaves a binary
+   handle where the reader stopped. *)
+Fixpoint take_line (s : str) : str * str :=              (* f.readline(): the line with its newline, and what follows *)
+  match s with
+  | [] => ([], [])
+  | c :: r => if byte_eqb c nl then ([c], r) else let '(l, t) := take_line r in (c :: l, t)
+  end.
+Fixpoint stk_consume_aux (fuel : nat) (s : str) : nat :=
+  match fuel with
+  | O => 0
+  | S k =>
+      match s with
+      | [] => 0                                            (* readline() returned '': end of file *)
+      | _ => let '(l, t) := take_line s in
+             if startswith (bs "//"%bs) (strip_ws l) then length l else length l + stk_consume_aux k t
+      end
+  end.
+Definition stk_consume (s : str) : nat := stk_consume_aux (S (length s)) s.
+Definition consume (fmt rest : str) : nat :=
+  if name_is fmt "stockholm"%bs then stk_consume rest else length rest.
+
+Inductive sop :=
+| SSeek (p : nat)                                          (* f.seek(p) *)
+| SRead (n : option nat)                                   (* f.read(n) / f.read() *)
+| SReadline                                                (* f.readline() *)
+| STell                                                    (* f.tell() *)
+| SDetect (w : what) (o : opts)                            (* sugar._io.detect(f, what, **opts) *)
+| SReadObj (w : what) (o : opts) (fmt : option str).       (* sugar.read(f, fmt, **opts) / read_fts *)
+Definition is_detect (op : sop) : bool := match op with SDetect _ _ => true | _ => false end.
+Definition h_advance (n : nat) (h : handle) : handle := h_seek (Nat.min (length (h_content h)) (h_pos h + n)) h.
+Definition sstep (h : handle) (op : sop) : val * handle :=
+  match op with
+  | SSeek p => (VI (Z.of_nat p), h_seek p h)
+  | SRead None => (VS (h_rest h), h_advance (length (h_rest h)) h)
+  | SRead (Some n) => (VS (firstn n (h_rest h)), h_advance n h)
+  | SReadline => let l := fst (take_line (h_rest h)) in (VS l, h_advance (length l) h)
+  | STell => (VI (Z.of_nat (h_pos h)), h)
+  | SDetect w o => let '(d, h') := detect_h w o h in (VL [v_dres d; VI (Z.of_nat (h_tell h'))], h')
+  | SReadObj w o fmt =>
+      match read_plan w o fmt h with
+      | None => (VE (bs "OSError"%bs), h)                  (* nothing detected; detect has put the handle back *)
+      | Some p =>
+          let h' := h_advance (consume (pl_fmt p) (h_rest h)) h in
+          (VL [VS (pl_fmt p); VI (Z.of_nat (h_pos h'))], h')
+      end
+  end.
+Fixpoint run_session (h : handle) (ops : list sop) : list val * handle :=
+  match ops with
+  | [] => ([], h)
+  | op :: r => let '(a, h') := sstep h op in let '(as_, h'') := run_session h' r in (a :: as_, h'')
+  end.
+(* the answers of the calls that are not detect calls *)
+Definition other_answers (ops : list sop) (answers : list val) : list val :=
+  map snd (filter (fun p => negb (is_detect (fst p))) (combine ops answers)).
+(* domain: contents as for detect; seeks stay inside the content *)
+Definition wf_session (c : str) (pos : nat) (ops : list sop) : bool :=
+  wf_C03 c pos && forallb (fun op => match op with SSeek p => Nat.leb p (length c) | _ => true end) ops.
+Definition run_C03_session (binary : bool) (c : str) (ops : list sop) : val :=
+  let '(answers, h) := run_session {| h_content := c; h_pos := 0; h_binary := binary |} ops in
+  VL [VB (wf_session c 0 ops); VL [VL answers; VI (Z.of_nat (h_pos h))]].
